@@ -2244,6 +2244,110 @@ impl Archive {
         }
     }
 
+    /// Load the checksums of the data sectors of a file with the SECTOR_CRC flag
+    ///
+    /// Such a file has one more entry in its sector offset table, and the last two
+    /// entries delimit the checksum sector that follows the last data sector. It holds
+    /// one ADLER32 value per data sector, is compressed like a data sector if that
+    /// makes it smaller, and is never encrypted.
+    ///
+    /// Archives in the wild carry the flag on files without usable checksums, so
+    /// everything that is not a well-formed checksum sector means "no checksums"
+    /// (`None`) rather than an error, as in StormLib:
+    /// - the first sector offset is not the size of an offset table with the extra entry
+    /// - the checksum sector is empty, shorter than one checksum, longer than all
+    ///   checksums or not inside the archive file
+    /// - the checksum sector does not decompress to exactly one checksum per sector
+    fn load_sector_checksums(
+        &mut self,
+        file_info: &FileInfo,
+        key: u32,
+        sector_count: usize,
+        sector_offsets: &[u32],
+    ) -> Result<Option<Vec<u32>>> {
+        let table_size = (sector_count + 2) * 4;
+        let checksums_size = sector_count * 4;
+
+        if sector_offsets[0] as usize != table_size {
+            log::debug!(
+                "File has SECTOR_CRC flag but no checksum sector (first sector offset {}, expected {})",
+                sector_offsets[0],
+                table_size
+            );
+            return Ok(None);
+        }
+
+        // Read the offset table again with the extra entry: the table is encrypted as
+        // one block, so the last entry cannot be decrypted on its own
+        if self
+            .ensure_stored_range(file_info.file_pos, table_size as u64)
+            .is_err()
+        {
+            return Ok(None);
+        }
+        self.reader.seek(SeekFrom::Start(file_info.file_pos))?;
+        let mut table_data = vec![0u8; table_size];
+        self.reader.read_exact(&mut table_data)?;
+        if file_info.is_encrypted() {
+            decrypt_file_data(&mut table_data, key.wrapping_sub(1));
+        }
+        let last = &table_data[table_size - 4..];
+        let checksums_end = u32::from_le_bytes([last[0], last[1], last[2], last[3]]) as u64;
+        let checksums_start = sector_offsets[sector_count] as u64;
+
+        let stored_size = checksums_end.saturating_sub(checksums_start) as usize;
+        if stored_size < 4 || stored_size > checksums_size {
+            log::debug!(
+                "File has SECTOR_CRC flag but no usable checksum sector ({stored_size} bytes stored for {sector_count} sectors)"
+            );
+            return Ok(None);
+        }
+
+        let checksums_pos = file_info.file_pos.saturating_add(checksums_start);
+        if self
+            .ensure_stored_range(checksums_pos, stored_size as u64)
+            .is_err()
+        {
+            return Ok(None);
+        }
+        self.reader.seek(SeekFrom::Start(checksums_pos))?;
+        let mut stored = vec![0u8; stored_size];
+        self.reader.read_exact(&mut stored)?;
+
+        let checksum_data = if stored_size < checksums_size {
+            // The first byte names the compression method, as in a data sector
+            match compression::decompress(&stored[1..], stored[0], checksums_size) {
+                Ok(data) if data.len() == checksums_size => data,
+                Ok(data) => {
+                    log::debug!(
+                        "Checksum sector decompressed to {} bytes instead of {checksums_size}, ignoring it",
+                        data.len()
+                    );
+                    return Ok(None);
+                }
+                Err(e) => {
+                    log::debug!("Checksum sector cannot be decompressed ({e}), ignoring it");
+                    return Ok(None);
+                }
+            }
+        } else {
+            stored
+        };
+
+        let checksums: Vec<u32> = checksum_data
+            .chunks_exact(4)
+            .map(|c| u32::from_le_bytes([c[0], c[1], c[2], c[3]]))
+            .collect();
+
+        log::debug!(
+            "Read {} sector checksums, first few: {:08X?}",
+            checksums.len(),
+            &checksums[..5.min(checksums.len())]
+        );
+
+        Ok(Some(checksums))
+    }
+
     /// Read a file that is split into sectors
     fn read_sectored_file(&mut self, file_info: &FileInfo, key: u32) -> Result<Vec<u8>> {
         let sector_size = self.header.sector_size();
@@ -2296,54 +2400,12 @@ impl Archive {
             sector_offsets.last().copied().unwrap_or(0)
         );
 
-        // Check if we have sector CRCs
-        let mut sector_crcs = None;
-        if file_info.has_sector_crc() {
-            // The first sector offset tells us where the data starts
-            // If it's large enough to accommodate a CRC table, then CRCs are present
-            let first_data_offset = sector_offsets[0] as usize;
-            let expected_crc_table_start = offset_table_size;
-            let expected_crc_table_size = sector_count * 4;
-
-            if first_data_offset >= expected_crc_table_start + expected_crc_table_size {
-                // CRC table follows the offset table
-                self.ensure_stored_range(
-                    file_info.file_pos + offset_table_size as u64,
-                    expected_crc_table_size as u64,
-                )?;
-                let mut crc_data = vec![0u8; expected_crc_table_size];
-                self.reader.read_exact(&mut crc_data)?;
-
-                // CRC table may be encrypted if the file is encrypted
-                // According to MPQ format, CRC table uses the same key as the offset table but offset by sector count
-                if file_info.is_encrypted() {
-                    let crc_key = key.wrapping_sub(1).wrapping_add(sector_count as u32);
-                    decrypt_file_data(&mut crc_data, crc_key);
-                }
-
-                let mut crcs = Vec::with_capacity(sector_count);
-                let mut cursor = std::io::Cursor::new(&crc_data);
-                for _ in 0..sector_count {
-                    crcs.push(cursor.read_u32::<LittleEndian>()?);
-                }
-
-                // Log before moving
-                log::debug!(
-                    "Read {} sector CRCs, first few: {:?}",
-                    sector_count,
-                    &crcs[..5.min(crcs.len())]
-                );
-
-                sector_crcs = Some(crcs);
-            } else {
-                log::debug!(
-                    "File has SECTOR_CRC flag but insufficient space for CRC table (offset_table_size={}, first_data_offset={}, needed={}). This is common in some MPQ implementations.",
-                    offset_table_size,
-                    first_data_offset,
-                    expected_crc_table_start + expected_crc_table_size
-                );
-            }
-        }
+        // Load the sector checksums if the file has them
+        let sector_checksums = if file_info.has_sector_crc() && sector_count > 0 {
+            self.load_sector_checksums(file_info, key, sector_count, &sector_offsets)?
+        } else {
+            None
+        };
 
         // Read and decompress each sector. The declared sizes are untrusted: reserve no
         // more than the stored data could plausibly expand to, the vector grows as needed.
@@ -2407,12 +2469,21 @@ impl Archive {
                 decrypt_file_data(sector_data, sector_key);
             }
 
-            // Validate CRC if present - MUST be done AFTER decryption but BEFORE decompression
-            // Skip CRC validation for now due to decryption key issues in some archives
-            if let Some(ref _crcs) = sector_crcs {
-                // Temporarily disabled CRC validation
-                // TODO: Fix CRC decryption key calculation for proper validation
-                log::trace!("Skipping CRC validation for sector {i}");
+            // Verify the sector checksum: ADLER32 of the stored sector bytes, after
+            // decryption and before decompression. The values 0 and 0xFFFFFFFF mean
+            // that the sector has no checksum.
+            if let Some(ref checksums) = sector_checksums {
+                let expected = checksums[i];
+                if expected != 0 && expected != 0xFFFF_FFFF {
+                    let actual = adler2::adler32_slice(sector_data);
+                    if actual != expected {
+                        return Err(Error::ChecksumMismatch {
+                            file: format!("{} (sector {i})", file_info.filename),
+                            expected,
+                            actual,
+                        });
+                    }
+                }
             }
 
             // Decompress sector
